@@ -136,7 +136,11 @@ func openFile(file string) (*os.File, error) {
 
 // createFile creates file.
 func createFile(file string) (*os.File, error) {
-	outfile, err := os.Create(file)
+	// Append mode as for an existing file: the files opened here are logs and
+	// history files that other writers may append to as well (a manual status
+	// update appends to a run's history file); without it a writer would
+	// overwrite what others have appended since its own last write.
+	outfile, err := os.OpenFile(file, os.O_CREATE|os.O_TRUNC|os.O_APPEND|os.O_WRONLY, 0666)
 	if err != nil {
 		return nil, err
 	}
